@@ -31,9 +31,31 @@ def oblig(h, status, **kw):
         "profile": h.profile,
         "features": h.features,
         "witness": h.witness,
+        "assumptions": ["[%s] %s" % (h.unit.uid, a) for a in h.unit.assumes],
     }
     d.update(kw)
     return d
+
+
+def scan_assumptions(results):
+    """mechanical scan of the contract sources that produced this run: counts of constructs that are assumptions, not proof"""
+    import glob, re
+    units = sorted(set(o.get("unit") for o in results if o.get("unit")))
+    out = {}
+    for path in glob.glob(os.path.join(CONTRACTS, "kani", "*.rs")) + glob.glob(os.path.join(CONTRACTS, "verus", "*.rs")):
+        txt = read(path)
+        m = re.search(r"^//@unit (\S+)", txt, re.M)
+        if not m or m.group(1) not in units:
+            continue
+        out[m.group(1)] = {
+            "kani::stub": len(re.findall(r"kani::stub\(", txt)),
+            "kani::assume / vk::assume": len(re.findall(r"(?:kani|vk)::assume\(", txt)),
+            "verus external_body": len(re.findall(r"external_body", txt)),
+            "verus assume_specification": len(re.findall(r"assume_specification", txt)),
+            "verus assume(": len(re.findall(r"\bassume\(", txt)) - len(re.findall(r"(?:kani|vk)::assume\(", txt)),
+            "verus admit": len(re.findall(r"\badmit\(", txt)),
+        }
+    return out
 
 
 def write_evidence(prop, tier, seed, results, undecided, wall, nviol):
@@ -82,6 +104,7 @@ def write_evidence(prop, tier, seed, results, undecided, wall, nviol):
         "distinct_nontrivial": len([o for o in results if (o.get("checks") or 0) > 0]),
         "rule": "one evaluation = one verifier run of one obligation; non-trivial = the verifier generated at least one check/VC for it",
     }
+    cov["mechanical_scan"] = scan_assumptions(results)
     doc = {
         "property_id": prop,
         "tier": tier,
